@@ -230,7 +230,7 @@ func (g *Gen) asciiStr(maxLen int) string {
 
 func (g *Gen) newVar() string {
 	g.varSeq++
-	bases := []string{"v", "x_", "Name", "_q", "t", "f", "l", "b", "a1"}
+	bases := []string{"v", "x_", "Name", "_q", "t", "fv", "l", "b", "a1"}
 	return fmt.Sprintf("%s%d", bases[g.pick(len(bases))], g.varSeq)
 }
 
